@@ -384,3 +384,45 @@ def _(B, p, ts, X):
 @law("tcat-fvts", "T1", "a:Terms b:Terms c:Terms", lambda B, a, b, c: B.tcat(a, b, c))
 def _(B, a, b, c):
     return B.implies(B.tcat(a, b, c), B.eq(B.fvts(c), B.union(B.fvts(a), B.fvts(b))))
+
+
+# ---- joins (nested-loop order; hypotheses exclude "shadowed" columns, i.e. columns both operands
+# expose without joining on them, whose provenance the property leaves open)
+def noshadow(B, CX, CF, K):
+    return B.subset(B.inter(CX, CF), K)
+
+
+def _join_laws():
+    for side in ("r", "l"):  # fixed operand on the right / on the left
+        def J(B, p, K, X, F, side=side):
+            return B.join(p, K, X, F) if side == "r" else B.join(p, K, F, X)
+
+        @law(f"join-calc-{side}", "T2", "p:Pred K:TagSet t:Tag e:Expr X:RS F:RS",
+             lambda B, p, K, t, e, X, F, J=J: [B.calc(t, e, J(B, p, K, X, F)), J(B, p, K, B.calc(t, e, X), F)])
+        def _(B, p, K, t, e, X, F, J=J):
+            hyp = B.and_(noshadow(B, B.sadd(B.rcols(X), t), B.rcols(F), K), B.subset(B.fv(e), B.rcols(X)), B.not_(B.member(t, B.rcols(X))),
+                         B.not_(B.member(t, B.rcols(F))), B.not_(B.member(t, B.fv(p))), B.subset(K, B.rcols(X)), B.subset(K, B.rcols(F)))
+            return B.implies(hyp, B.eq(B.calc(t, e, J(B, p, K, X, F)), J(B, p, K, B.calc(t, e, X), F)))
+
+        @law(f"join-filter-{side}", "T2", "p:Pred K:TagSet q:Pred X:RS F:RS",
+             lambda B, p, K, q, X, F, J=J: [B.filter(q, J(B, p, K, X, F)), J(B, p, K, B.filter(q, X), F)])
+        def _(B, p, K, q, X, F, J=J):
+            hyp = B.and_(noshadow(B, B.rcols(X), B.rcols(F), K), B.subset(B.fv(q), B.rcols(X)), B.subset(K, B.rcols(X)), B.subset(K, B.rcols(F)))
+            return B.implies(hyp, B.eq(B.filter(q, J(B, p, K, X, F)), J(B, p, K, B.filter(q, X), F)))
+
+        @law(f"join-proj-{side}", "T2", "p:Pred K:TagSet P:TagSet X:RS F:RS",
+             lambda B, p, K, P, X, F, J=J: [B.proj(B.union(P, B.rcols(F)), J(B, p, K, X, F)), J(B, p, K, B.proj(P, X), F)])
+        def _(B, p, K, P, X, F, J=J):
+            hyp = B.and_(noshadow(B, B.rcols(X), B.rcols(F), K), B.subset(P, B.rcols(X)), B.subset(K, P), B.subset(K, B.rcols(F)),
+                         B.subset(B.fv(p), B.union(P, B.rcols(F))))
+            return B.implies(hyp, B.eq(B.proj(B.union(P, B.rcols(F)), J(B, p, K, X, F)), J(B, p, K, B.proj(P, X), F)))
+
+    # sorting commutes only when the sorted operand drives the outer loop (fixed operand on the right)
+    @law("join-sort-r", "T3", "p:Pred K:TagSet ts:Terms X:RS F:RS",
+         lambda B, p, K, ts, X, F: [B.sort(ts, B.join(p, K, X, F)), B.join(p, K, B.sort(ts, X), F)])
+    def _(B, p, K, ts, X, F):
+        hyp = B.and_(noshadow(B, B.rcols(X), B.rcols(F), K), B.subset(B.fvts(ts), B.rcols(X)), B.subset(K, B.rcols(X)), B.subset(K, B.rcols(F)))
+        return B.implies(hyp, B.eq(B.sort(ts, B.join(p, K, X, F)), B.join(p, K, B.sort(ts, X), F)))
+
+
+_join_laws()
